@@ -167,6 +167,10 @@ def all_scenarios(thorough=False):
             s.append(Scenario(f'pack:{mode}-perpack{int(perpack)}', loose_many, _pack(mode, perpack), target=100))
     s.append(Scenario('pack:NO-bigtarget', loose_many, _pack('NO', True)))
     s.append(Scenario('pack:NO-novalidate', loose_many, _pack('NO', False, validate=False), target=100))
+    # an object of several chunks among small ones, all in one pack: a fault in the middle of its copy leaves a partial
+    # copy behind in the pack, and the objects packed after it must still be recorded where they really are
+    s.append(Scenario('pack:NO-big-among-small', [('k1', 'loose'), ('k2', 'loose'), ('kb', 'loose'), ('k3', 'loose'),
+                                                   ('k6', 'loose'), ('k7', 'loose'), ('k8', 'packed')], _pack('NO', True)))
     s.append(Scenario('clean:plain', [('k1', 'both'), ('k2', 'bothz'), ('k3', 'loose'), ('k5', 'packed')], _clean(False)))
     s.append(Scenario('clean:vacuum', [('k1', 'both'), ('k2', 'bothz'), ('k3', 'loose'), ('k5', 'packed')], _clean(True)))
     pre_pack = [('k1', 'packed'), ('k2', 'loose'), ('k3', 'packedz')]
